@@ -3,6 +3,22 @@
 import json
 HOOKS = ["d9dd131", "17b43f7"]
 checks = {
+ "C03": dict(level="model_checking", engine="E1",
+   text="Exhaustive BFS over command histories (APPEND incl. \\Deleted, STORE +/-/=, EXPUNGE, UID EXPUNGE, CLOSE+SELECT, COPY/MOVE to the same / another / an already-holding mailbox, from two sessions) of the real server against a Go reference model (flags shared per message, \\Deleted per mailbox, re-add at end); after EVERY transition every mailbox is read through a fresh EXAMINE session (order, flags, exact bytes) and compared with the model; NO/BAD must leave everything unchanged.",
+   note="Bounds: 2 sessions, 3 mailboxes, 4 initial messages, depth 3 (quick) / 5 (thorough) per family. Each command is preceded by NOOP so that sequence numbers refer to the current mailbox (stale views are C01/C02/C05's subject). The statement-batching-limit grid is part of C08.",
+   technique="explicit-state BFS over command histories of the implementation against a reference model", design="3/C03"),
+ "C09": dict(level="fault_enumeration", engine="ENUM",
+   text="Bounded-exhaustive enumeration on the real store: every size around every multiple of the cipher block size x compressibility x scenario (fresh, overwrite, neighbour untouched, delete, list, failing writer), and for reference files EVERY truncation length and EVERY single-byte alteration, block-level operations and foreign passphrases; oracle: Get returns exactly the stored bytes or an error.",
+   note="Sequential part only so far (the interleaving part is listed in DESIGN.md as pending). crypto/rand is pinned while base files are written so that files are byte-identical in every run.",
+   technique="exhaustive enumeration of sizes and of all single-fault corruptions of stored files", design="3/C09"),
+ "C15": dict(level="exploration", engine="ENUM",
+   text="All search-key trees of depth <=2 over 49 key instances (NOT, OR, juxtaposition, parenthesised lists), depth-3 shapes over representatives, SEARCH and UID SEARCH, quoted/literal/charset encodings, against fresh / stale (unannounced expunge) / pending (unannounced arrival) views of a real server; a reference evaluator over the session's own rows decides the expected result for every expression.",
+   note="Finite key/argument alphabet over a 5-message fixture; internal dates at 12:00 UTC so that time-zone interpretation is not judged.",
+   technique="bounded-exhaustive enumeration of search expressions against a reference evaluator", design="3/C15"),
+ "C16": dict(level="exploration", engine="ENUM",
+   text="Every message set over the number alphabet {1,2,3,n,n+1,2^31,2^32-1,2^32,2^32+1,2^63-1,2^63,2^64+1,*} (singles, ranges, unions, overlapping triples) against views of size 0/1/3 with UID gaps, in FETCH, STORE, SEARCH, COPY, MOVE, UID EXPUNGE and their UID forms on a real server; expected selection computed by an RFC 3501 resolver as a set; beyond-count numbers must give BAD.",
+   note="'*' in an empty mailbox and UID n:* above the highest UID are not judged; UIDs >= 2^32 may be refused.",
+   technique="bounded-exhaustive enumeration of message sets against an RFC 3501 resolver", design="3/C16"),
  "C02": dict(level="model_checking", engine="E1",
    text="Same transition system as C01 (real server, explicit update delivery). On EVERY reached state the check-extension QUIESCE delivers all held updates to all sessions (real ApplyUpdate), issues NOOP and compares the session's rows with a freshly opened EXAMINE session (UID order and flags, \\Recent ignored). Because the extension runs after every prefix, every placement of the observer's flushes relative to the other parties' steps within the depth is covered.",
    note="Bounds as C01 plus a connector-heavy family. Known findings (ordering defect when a session acts on a message while an older update about it is undelivered) are listed in known_findings.json and matched by discrepancy class + the stale-own-action witness, so other convergence failures are still reported.",
@@ -30,6 +46,7 @@ m = {
    "add_only": True,
  },
  "engines": [
+   {"name": "ENUM", "path": "checks/enum.go", "serves_properties": [k for k,v in checks.items() if v["engine"]=="ENUM"], "kind_free_text": "bounded-exhaustive enumeration of inputs / faults, executed in worker child processes against the real code; a chunk whose worker dies is bisected to the single case"},
    {"name": "E1", "path": "engine/explore", "serves_properties": [k for k,v in checks.items() if v["engine"]=="E1"], "kind_free_text": "explicit-state BFS over event histories of a real gluon.Server (in-memory listener, harness connector, hold/deliver hooks); successors by replay in worker child processes; canonical-state hashing; violations re-run 5x and delta-minimised"},
  ],
  "checks": [],
